@@ -32,27 +32,28 @@ def mant (N : ℚ) (d : ℕ) (e : Int) : Int := ⌊|N| * pow10 (-e) * pow10 ((d 
 theorem roundSig_ok (N : ℚ) (d : ℕ) (e : Int) (hN : N ≠ 0) (hd : d ≤ 7) :
     roundSig N d e = .ok (((sign1 N : Int) : ℚ) * ((mant N d e : ℚ) * pow10 (-(d : Int) + 1)) * pow10 e) := by
   unfold roundSig mant
-  rw [if_neg hN, if_neg (by omega)]
+  rw [if_neg (by omega), if_neg hN]
   simp only [sign1_mul]
   rfl
 
-theorem round_zero (d : ℕ) (e : Int) : roundSig 0 d e = .ok 0 := by unfold roundSig; simp
+theorem round_zero (d : ℕ) (e : Int) (hd : d ≤ 7) : roundSig 0 d e = .ok 0 := by
+  unfold roundSig; rw [if_neg (by omega)]; simp
 
-/-- more than seven digits → diagnostic (for every non-zero argument) -/
-theorem roundSig_guard (N : ℚ) (d : ℕ) (e : Int) (hN : N ≠ 0) (hd : 7 < d) : roundSig N d e = .error .diag := by
-  unfold roundSig; rw [if_neg hN, if_pos hd]
+/-- more than seven digits → diagnostic (for every argument, zero included: 710b478) -/
+theorem roundSig_guard (N : ℚ) (d : ℕ) (e : Int) (hd : 7 < d) : roundSig N d e = .error .diag := by
+  unfold roundSig; rw [if_pos hd]
 
 theorem mant_neg (N : ℚ) (d : ℕ) (e : Int) : mant (-N) d e = mant N d e := by unfold mant; rw [abs_neg]
 
 /-- **roundSig_odd** -/
 theorem roundSig_odd (N : ℚ) (d : ℕ) (e : Int) :
     roundSig (-N) d e = (roundSig N d e).map (fun r => -r) := by
-  by_cases hN : N = 0
-  · subst hN; simp [round_zero, Except.map]
-  · by_cases hd : d ≤ 7
+  by_cases hd : d ≤ 7
+  · by_cases hN : N = 0
+    · subst hN; simp [round_zero _ _ hd, Except.map]
     · rw [roundSig_ok N d e hN hd, roundSig_ok (-N) d e (neg_ne_zero.mpr hN) hd, mant_neg, sign1_neg]
       simp only [Except.map]; congr 1; push_cast; ring
-    · rw [roundSig_guard N d e hN (by omega), roundSig_guard (-N) d e (neg_ne_zero.mpr hN) (by omega)]; rfl
+  · rw [roundSig_guard N d e (by omega), roundSig_guard (-N) d e (by omega)]; rfl
 
 /-- scaled argument and the identity `|N| = s · 10^(e+1−d)` -/
 theorem scaled_id (N : ℚ) (d : ℕ) (e : Int) :
@@ -365,7 +366,7 @@ def roundExact (N : ℚ) (d : ℕ) : ℚ := if N = 0 then 0 else rval N d (expo1
 theorem round_eq_roundExact (N : ℚ) (d : ℕ) (hd : d ≤ 7) : round N d = .ok (roundExact N d) := by
   unfold round roundExact
   by_cases hN : N = 0
-  · subst hN; simp [round_zero]
+  · subst hN; simp [round_zero _ _ hd]
   · rw [if_neg hN, rabs_eq_abs, expo10Fast_eq _ (abs_pos.mpr hN)]
     exact roundSig_rval N d _ hN hd
 
